@@ -386,9 +386,9 @@ theorem doVote_flagInv (c : Ctx) (s s' : St) (v cand : Nat) (ib : Int) (hI : Fla
 
 open LemoProofs.LedgerReward in
 theorem doRegister_flagInv (c : Ctx) (hfc : c.flagCheck = true) (s s' : St) (fr : Nat) (amt : Int) (flag inc : Nat) (nd : Bool)
-    (hI : FlagInv s) (h : doRegister c s fr amt flag inc nd = .ok s') : FlagInv s' := by
+    (px : TxProfile) (hI : FlagInv s) (h : doRegister c s fr amt flag inc nd px = .ok s') : FlagInv s' := by
   unfold doRegister at h
-  simp only [hfc, true_and] at h
+  simp only [depositAfterOverlay_true, hfc, true_and] at h
   split at h; · cases h
   rename_i hvalid
   split at h
@@ -458,7 +458,7 @@ theorem applySimple_flagInv (c : Ctx) (hfc : c.flagCheck = true) (s s' : St) (gp
     · injection hb with hb; subst hb
       exact FlagInv_of_frame _ _ (fun x => (transfer_sameButBal _ _ _ _ x).1) h1
   | vote cand => simp only [hk] at hb; exact doVote_flagInv c _ sb _ _ _ h1 hb
-  | register amt flag inc nd => simp only [hk] at hb; exact doRegister_flagInv c hfc _ sb _ _ _ _ _ h1 hb
+  | register amt flag inc nd px => simp only [hk] at hb; exact doRegister_flagInv c hfc _ sb _ _ _ _ _ _ h1 hb
   | setSigners tg l tok =>
     simp only [hk] at hb
     unfold doSetSigners at hb
@@ -607,12 +607,12 @@ theorem revote_moves_weight (c : Ctx) (s s' : St) (voter old cand : Nat) (ib : I
 
 /-- **register_sets_deposit_votes**: a successful FIRST registration sets votes := ⌊deposit/100 LEMO⌋ and stores the
     deposit — and stores the tx's isCandidate flag AS IT IS, whatever it says (the handler never looks at it). -/
-theorem register_sets_deposit_votes (c : Ctx) (s s' : St) (fr : Nat) (amt : Int) (flag inc : Nat) (nd : Bool)
+theorem register_sets_deposit_votes (c : Ctx) (s s' : St) (fr : Nat) (amt : Int) (flag inc : Nat) (nd : Bool) (px : TxProfile)
     (h0 : (s.accts fr).isCand = 0) (hp : fr ≠ c.p.pool)
-    (h : doRegister c s fr amt flag inc nd = .ok s') :
+    (h : doRegister c s fr amt flag inc nd px = .ok s') :
     (s'.accts fr).votes = amt / c.p.depositRate ∧ (s'.accts fr).isCand = flag ∧ (s'.accts fr).deposit = some amt := by
   unfold doRegister at h
-  simp only [h0, if_true] at h
+  simp only [depositAfterOverlay_true, h0, if_true] at h
   split at h; · cases h
   split at h; · cases h
   split at h; · cases h
@@ -622,20 +622,20 @@ theorem register_sets_deposit_votes (c : Ctx) (s s' : St) (fr : Nat) (amt : Int)
 
 /-- on the code as it stands (flag check on) a successful first registration carries the flag "true" -/
 theorem register_flag_is_true (c : Ctx) (hfc : c.flagCheck = true) (s s' : St) (fr : Nat) (amt : Int) (flag inc : Nat) (nd : Bool)
-    (h0 : (s.accts fr).isCand = 0) (h : doRegister c s fr amt flag inc nd = .ok s') : flag = 1 := by
+    (px : TxProfile) (h0 : (s.accts fr).isCand = 0) (h : doRegister c s fr amt flag inc nd px = .ok s') : flag = 1 := by
   unfold doRegister at h
-  simp only [h0, if_true, hfc, true_and] at h
+  simp only [depositAfterOverlay_true, h0, if_true, hfc, true_and] at h
   split at h; · cases h
   split at h; · cases h
   rename_i h1 h2
   omega
 
 /-- **unregister_zeroes**: the unregistration of a REGISTERED candidate (stored flag "true", tx flag "false") -/
-theorem unregister_zeroes (c : Ctx) (s s' : St) (fr : Nat) (amt : Int) (inc : Nat) (nd : Bool)
-    (h1 : (s.accts fr).isCand = 1) (h : doRegister c s fr amt 2 inc nd = .ok s') :
+theorem unregister_zeroes (c : Ctx) (s s' : St) (fr : Nat) (amt : Int) (inc : Nat) (nd : Bool) (px : TxProfile)
+    (h1 : (s.accts fr).isCand = 1) (h : doRegister c s fr amt 2 inc nd px = .ok s') :
     (s'.accts fr).votes = 0 ∧ (s'.accts fr).isCand = 2 := by
   unfold doRegister at h
-  simp only [h1] at h
+  simp only [depositAfterOverlay_true, h1] at h
   simp only [show ¬ (1 : Nat) = 0 by decide, show ¬ (1 : Nat) = 2 by decide, if_false, if_true,
     ne_eq, not_true_eq_false, and_false, show ¬ (2 : Nat) = 1 by decide, not_false_eq_true, and_true] at h
   split at h
@@ -654,12 +654,12 @@ theorem unregister_zeroes (c : Ctx) (s s' : St) (fr : Nat) (amt : Int) (inc : Na
     when it is positive; with a positive rate it is never negative) — and overwrites the stored flag with the tx's. -/
 theorem topup_adds_floor_difference (c : Ctx) (s s' : St) (fr : Nat) (amt : Int) (flag inc : Nat) (nd : Bool) (old : Int)
     (hr : 0 < c.p.depositRate) (h1 : (s.accts fr).isCand = 1) (hf : flag ≠ 2) (ha : 0 < amt)
-    (hd : (s.accts fr).deposit = some old) (hp : fr ≠ c.p.pool)
-    (h : doRegister c s fr amt flag inc nd = .ok s') :
+    (hd : (s.accts fr).deposit = some old) (hp : fr ≠ c.p.pool) (px : TxProfile)
+    (h : doRegister c s fr amt flag inc nd px = .ok s') :
     (s'.accts fr).votes = (s.accts fr).votes + ((old + amt) / c.p.depositRate - old / c.p.depositRate) ∧
     (s'.accts fr).deposit = some (old + amt) ∧ (s'.accts fr).isCand = flag := by
   unfold doRegister at h
-  simp only [h1] at h
+  simp only [depositAfterOverlay_true, h1] at h
   simp only [show ¬ (1 : Nat) = 0 by decide, show ¬ (1 : Nat) = 2 by decide, if_false, hf,
     ne_eq, not_true_eq_false, ha, if_true, hd] at h
   split at h; · cases h
